@@ -322,7 +322,7 @@ impl<'a> Hist<'a> {
                 // C06: the returned state has precisely the block's header; a mutated block is not accepted
                 let hdr_ok = silent(|| ns.header()).ok() == Some(block.header);
                 self.out.fact("C06", "accepted-state-has-block-header", hdr_ok, label);
-                if label != "honest" {
+                if label != "honest" && label != "action.dest-same" {
                     self.out.fact("C06", "mutated-block-accepted", false, label);
                 }
                 self.w.sealed.insert(dst.clone(), ns);
@@ -620,7 +620,13 @@ pub fn history(r: &mut Rng, w: &mut World, out: &mut Out, em: &Emphasis, stats: 
                 let _ = h.op_block(p, &blk, "honest");
                 for _ in 0..2 {
                     let mut m = blk.clone();
-                    let label = mutate_block(r, &mut m, &mut h);
+                    let pp = h.w.sealed.get(p).unwrap().verif_inner().verif_parts();
+                    let tip901 = match pp.network {
+                        NetID::Mainnet => pp.height.0 + 1 >= 42700,
+                        NetID::Testnet => pp.height.0 + 1 >= 500,
+                        _ => true,
+                    };
+                    let label = mutate_block(r, &mut m, &mut h, pp.fee_multiplier, tip901);
                     let _ = h.op_block(p, &m, &label);
                 }
             }
@@ -656,7 +662,7 @@ pub fn merge(a: &mut BTreeMap<String, u64>, b: &BTreeMap<String, u64>) {
 }
 
 /// single-field mutations of a block
-pub fn mutate_block(r: &mut Rng, b: &mut Block, h: &mut Hist) -> String {
+pub fn mutate_block(r: &mut Rng, b: &mut Block, h: &mut Hist, pre_mult: u128, tip901: bool) -> String {
     let flip = |x: &mut tmelcrypt::HashVal| x.0[0] ^= 1;
     match r.below(16) {
         0 => {
@@ -746,11 +752,24 @@ pub fn mutate_block(r: &mut Rng, b: &mut Block, h: &mut Hist) -> String {
             match &mut b.proposer_action {
                 Some(a) => {
                     if r.chance(1, 2) {
+                        let old = a.fee_multiplier_delta;
                         a.fee_multiplier_delta = a.fee_multiplier_delta.wrapping_add(if r.chance(1, 2) { 1 } else { 64 });
-                        "action.delta".into()
+                        // two deltas with the same scaled movement have the same effect (and the same header)
+                        let m = pre_mult;
+                        let mv = |d: i8| {
+                            let mm = if tip901 { (m >> 7).max(2) } else { m >> 7 };
+                            let step = mm * (d.unsigned_abs() as u128) / 128;
+                            if d >= 0 { m.saturating_add(step) } else { m.saturating_sub(step) }
+                        };
+                        if mv(old) == mv(a.fee_multiplier_delta) {
+                            "action.delta-equivalent".into()
+                        } else {
+                            "action.delta".into()
+                        }
                     } else {
+                        let old = a.reward_dest;
                         a.reward_dest = h.wallet.rand_addr(r, 1);
-                        "action.dest".into()
+                        if old == a.reward_dest { "action.dest-same".into() } else { "action.dest".into() }
                     }
                 }
                 None => {
